@@ -52,7 +52,7 @@ func loadPool() {
 				goodPool = append(goodPool, string(b))
 			}
 		}
-		goodPool = append(goodPool, "package x\n\ntempl a() {\n\t<div>a</div>\n}\n", "package x\n",
+		goodPool = append(goodPool, "package x\n\ntempl a() {\n\t<div>a</div>\n}\n", "package x\n", "", "\n",
 			// Go code that gofmt would change: import blocks out of order, old-style number
 			// literals, odd spacing and alignment - the output has to be the gofmt-formatted text
 			"package x\n\nimport (\n\t\"strings\"\n\t\"fmt\"\n\t\"context\"\n)\n\nvar _ = context.Background\n\nfunc label(n int) string {\n\treturn strings.ToUpper(fmt.Sprint(n))\n}\n\ntempl a(n int) {\n\t<b>{ label(n) }</b>\n}\n",
@@ -293,6 +293,16 @@ func simWorld(rc *kernel.RunCtx) {
 	}
 	defer os.RemoveAll(root)
 	root, _ = filepath.EvalSymlinks(root)
+	// where the tree lives: directories *above* the one the command is pointed at may have any
+	// name (a CI runner's _work, a cache under .cache, a checkout below vendor)
+	if above := []string{"", "", "_work", ".cache", "vendor", "node_modules", "_"}[t.Choose(7, "ancestor-name")]; above != "" {
+		root = filepath.Join(root, above, "project")
+		if err := os.MkdirAll(root, 0o755); err != nil {
+			rc.Fail("harness", "%v", err)
+			return
+		}
+		k.Count("probe_tree_below_a_directory_with_a_skipped_name", 1)
+	}
 	w := &world{rc: rc, k: k, t: t, root: root, burst: rc.Param("burst", 0) == 1}
 
 	// ---- the tree
